@@ -56,7 +56,7 @@ def cases(tier):
     for K in range(2, kmax + 1):
         out.append({"name": f"unbalanced/K{K}", "kind": "unbalanced", "K": K})
         out.append({"name": f"two-atoms/K{K}", "kind": "twoatoms", "K": K})
-    for k in ("bracket", "symbol", "distname", "translen", "negweight", "aftermix", "percent", "nongen", "prefix"):
+    for k in ("bracket", "bracket2", "symbol", "distname", "translen", "negweight", "aftermix", "percent", "nongen", "prefix"):
         out.append({"name": k, "kind": k})
     lmax = 4 if tier == "quick" else 5
     for cls in ("System", "Molecule", "Stochastic", "SmilesToken", "BondDescriptor", "Mixture"):
@@ -176,6 +176,28 @@ def run_case(case, g, tier, res):
             return expect_raise(c, lambda: ST(text, 0, 0), "unclosed bracket rejected", _det("unclosed bracket rejected", lambda mv, c: text_of(c, mv, text)))
 
         explore_case(res, h, tier, on_path=on_path)
+    elif kind == "bracket2":
+        # one bracket / brace of a well-formed stochastic object or molecule is missing (symbolic position)
+        TEMPL = ["{[][$]CC[$]; [$][H][]}", "{[<][<]CC[>][>]}", "N{[<][<]CC[>], [<]CO[>][>]}|gauss(50,5)|O", "{[][<]CC[>]; [<]O, [>]N[]}|gauss(50,5)|"]
+
+        def h(c):
+            t = TEMPL[c.fresh_int("template", 0, len(TEMPL) - 1).__index__()]
+            marks = [i for i, ch in enumerate(t) if ch in "[]{}" and not (t[i:i + 3] == "[H]" or t[i - 2:i + 1] == "[H]")]
+            k = marks[c.fresh_int("missing", 0, len(marks) - 1).__index__()]
+            text = t[:k] + t[k + 1:]
+            make = (lambda: g.Molecule(text)) if not text.startswith("{") or "|" in text else (lambda: g.Stochastic(text, 0))
+            det = _det("unbalanced bracket or brace rejected", lambda mv, c: text, {"sub": "bracket2"})
+            try:
+                obj = make()
+            except Exception as e:
+                core.reraise_if_harness(e)
+                c.prove(True, "unbalanced bracket or brace rejected")
+                return "rejected"
+            # accepted: only acceptable if it still means the same text minus nothing, i.e. never: the text is ill-formed
+            c.prove(False, "unbalanced bracket or brace rejected", det)
+            return "accepted"
+
+        explore_case(res, h, tier, on_path=on_path)
     elif kind == "symbol":
         bad = "".join(ch for ch in map(chr, range(33, 127)) if ch not in "$<>[]|{},;" and Chem.MolFromSmiles(f"[{ch}]") is None)
 
@@ -239,7 +261,9 @@ def run_case(case, g, tier, res):
                 if i:
                     lst.append(" ")
                 lst.append(Num(w, "float"))
-            first = body.index("]")
+            # the list sits on any descriptor of the object: repeat units and end groups alike (symbolic position)
+            closes = [i for i, ch in enumerate(body) if ch == "]" and body[i - 1] != "H"]
+            first = closes[c.fresh_int("on_descriptor", 0, len(closes) - 1).__index__()]
             text = SymStr.of("{[]", body[:first], "|", *lst, "|", body[first:], "[]}|gauss(50,5)|")
             return expect_raise(c, lambda: g.Stochastic(text, 0), "wrong transition list length rejected",
                                 _det("wrong transition list length rejected", lambda mv, c: text_of(c, mv, text)))
@@ -288,7 +312,7 @@ def run_case(case, g, tier, res):
             # any real outside [0, 100] (no bound, so that every printing class of the number is inside the claim), in any spelling
             v = c.fresh_real("p", 100, None, lo_strict=True) if hi else c.fresh_real("p", None, 0, hi_strict=True)
             via = c.fresh_int("via", 0, 2).__index__()
-            style = (None, "plain", "sci", "sci-short")[c.fresh_int("spelling", 0, 3).__index__()] if via != 2 else None
+            style = (None, "plain", "sci", "sci-short", "sci-upper")[c.fresh_int("spelling", 0, 4).__index__()] if via != 2 else None
             text = SymStr.of(".|", Num(v, "float", style), "%|")
             det = _det("percentage outside 0-100 rejected", lambda mv, c: text_of(c, mv, text), {"via": via})
             if via == 0:
@@ -444,6 +468,8 @@ def replay(rp, gb):
 
     if label == "unbalanced branches rejected" or label == "descriptor between two atoms rejected" or label == "unclosed bracket rejected":
         ok = raises(lambda: gb.SmilesToken(t, 0, 0))
+    elif label == "unbalanced bracket or brace rejected":
+        ok = raises(lambda: gb.Molecule(t)) if (not t.startswith("{") or "|" in t) else raises(lambda: gb.Stochastic(t, 0))
     elif label == "unknown descriptor symbol rejected":
         if t.startswith("{"):
             ok = raises(lambda: gb.Molecule(t)) and raises(lambda: gb.Stochastic(t, 0))
